@@ -34,21 +34,26 @@ def make_scratch(repo, patch):
 
 
 def run_on_patch(patch, props, repo=None, quiet=True):
-    """returns {prop: (rc, [new violation keys], [known keys])}"""
-    from .check import run_property
+    """returns {prop: (rc, [new violation keys], [known keys])}; facts are extracted and loaded once for all properties"""
+    from .check import run_property, Ctx
+    from .core import load_crates
     repo = repo or extract.repo_root()
     d = make_scratch(repo, patch)
     out = {}
     try:
+        try:
+            facts, _info = extract.extract(d)
+        except extract.ExtractError:
+            return {p: (2, [], []) for p in props}
+        ctx = Ctx(load_crates(facts), "quick", d)
         for p in props:
-            rc, info = run_property(p, "quick", repo=d, write_evidence=False, quiet=quiet)
+            rc, info = run_property(p, "quick", repo=d, write_evidence=False, quiet=quiet, ctx=ctx)
             if info is None:
                 out[p] = (rc, [], [])
             else:
                 out[p] = (rc, [k for _r, k, _m in info["new"]], [k for k, _ in info["known"]])
     finally:
         shutil.rmtree(d, ignore_errors=True)
-        # drop the scratch crate's fact cache entry? (kept: keyed by content hash, bounded by extract)
     return out
 
 
